@@ -88,7 +88,13 @@ func (m *kaMonitor) onEvent(e kaEvent) {
 	// inbound
 	if m.pending {
 		m.pending = false
-		m.needBy = e.at.Add(m.hb + m.slack)
+		// The exemption lasts as long as the test request is pending, no longer: a Heartbeat that fell due in
+		// the meantime is due now (the reaction to this very message is the engine's first opportunity).
+		m.needBy = m.lastOut.Add(m.hb + m.slack)
+		if due := e.at.Add(m.slack); due.After(m.needBy) {
+			m.needBy = due
+			m.env.Stat("probe_heartbeat_overdue_when_pending_ends")
+		}
 		m.env.Stat("probe_pending_cancelled")
 	}
 	m.lastIn = e.at
